@@ -75,6 +75,7 @@ package inputrc
 //@   requires 0 <= i && end <= len(r)
 //@   pure
 //@   ensures @C19 [one-token] i == 0 && end == len(r) && simpletok(r) ==> result == str(decr1(r))
+//@   ensures [one-rune-identity] len(r) == 1 ==> result == str(r)
 //@   loop 1 invariant i >= i$0
 //@   loop 1 invariant i$0 == 0 && end == len(r) && simpletok(r) ==> (i == 0 && len(seq) == 0) || (i == end && seq == decr1(r))
 //@   loop 1 decreases end - i
@@ -149,6 +150,7 @@ package inputrc
 //@   pure
 //@   defines unescs
 //@   ensures @C19 [one-token] simpletok(runes(s)) ==> result == str(decr1(runes(s)))
+//@   ensures [one-rune-identity] len(runes(s)) == 1 ==> result == str(runes(s))
 
 // ---------------------------------------------------------------------------------------
 // Handler interface (application code: assumed total; observable effect = ghost call counters)
@@ -169,7 +171,8 @@ package inputrc
 //@   ensures lastkeymap(self) == keymap && lastseq(self) == sequence && lastaction(self) == action && lastmacro(self) == macro
 
 //@ fntype (Handler).Set
-//@   assumed application code: total
+//@   assumed application code: total for the value types the parser produces
+//@   requires [value-type] typeis(value, "bool") || typeis(value, "string") || typeis(value, "int")
 //@   assigns nset(self), lastsetname(self)
 //@   ensures nset(self) == old(nset(self)) + 1 && lastsetname(self) == name
 
